@@ -769,3 +769,20 @@ Proof.
   replace (hkey h) with (hkey x); [apply in_map; exact Hx|].
   apply same_kn_true in Kx. destruct Kx. unfold hkey. congruence.
 Qed.
+
+(* the bare name, spelled out: the loaded header of that kind and name whose revision no
+   other one exceeds; nothing exactly when no such header is loaded *)
+Theorem find_bare_latest : forall hs k n, names_ok hs = true -> at_free n = true ->
+  match Registry.find (final hs) k n None with
+  | Some m => In m hs /\ h_kind m = k /\ h_name m = n /\
+              forall c, In c hs -> h_kind c = k -> h_name c = n -> str_ltb (cur m) (cur c) = false
+  | None => forall c, In c hs -> ~ (h_kind c = k /\ h_name c = n)
+  end.
+Proof.
+  intros hs k n Hs Hn. rewrite find_spec by assumption. simpl.
+  destruct (spec_latest hs k n) as [m|] eqn:L.
+  - apply spec_latest_some in L. destruct L as (A & B & C). apply same_kn_true in B. destruct B.
+    repeat split; auto. intros c Hc K1 K2. apply C; [exact Hc|]. apply same_kn_true. auto.
+  - intros c Hc K. apply same_kn_true in K.
+    rewrite (proj1 (spec_latest_none hs k n) L c Hc) in K. discriminate.
+Qed.
